@@ -89,10 +89,20 @@ def main(argv):
                 'Produced by `tools/seeded.py` (tier %s). Each change was written by a sub-agent that\n'
                 'saw only the property text and a scratch worktree; it compiles, leaves the pinned\n'
                 'suite\'s result unchanged and comes with a demonstration (see each meta.json).\n\n'
-                '| seeded change | breaks | check run | outcome | violation classes reported |\n'
-                '|---|---|---|---|---|\n' % tier)
+                'A change whose own property check answers MISSED is decided by the neighbouring check\n'
+                'listed right below it; the note (from its meta.json) says why.\n\n'
+                '| seeded change | breaks | check run | outcome | violation classes reported | note |\n'
+                '|---|---|---|---|---|---|\n' % tier)
         for row in rows:
-            f.write('| %s | %s | %s | %s | %s |\n' % row)
+            note = ''
+            try:
+                meta = json.load(open(os.path.join(SEEDED, row[0], 'meta.json')))
+                note = (meta.get('note') or '').replace('|', '/').replace('\n', ' ')
+                if meta.get('rebased'):
+                    note = (note + ' ' if note else '') + 'patch re-applied by hand onto ' + meta['rebased']['onto']
+            except Exception:
+                pass
+            f.write('| %s | %s | %s | %s | %s | %s |\n' % (tuple(row) + (note,)))
     return 0
 
 
